@@ -1275,3 +1275,35 @@ val step : ucd_table -> callbacks -> sinstr list -> mstate -> result
 
 val init_state :
   n list -> n list list -> bool -> name list -> symtab -> mstate
+
+type tr_item =
+| TrAct of n
+| TrCap of n * n * n
+
+type out =
+| Succ of n * tr_item list * n
+| Fail of n
+
+val rest : n list -> n -> n list
+
+val tmatch : ucd_table -> n list -> sinstr -> n -> n option
+
+val is_terminal : sinstr -> bool
+
+val frag : pexp -> bool
+
+val rep_eval : (n -> out option) -> nat -> nat -> n -> out option
+
+val peg_eval :
+  ucd_table -> n list -> (nat -> pexp option) -> nat -> pexp -> n -> out
+  option
+
+val link_layout : ucd_table -> expr -> rtable -> nat -> (pexp * lstate) err
+
+val placed : lstate -> nat -> bool
+
+val and_free : pexp -> bool
+
+val rules_of : rtable -> lstate -> nat -> pexp option
+
+val top_pexp : pexp -> nat -> pexp
